@@ -358,6 +358,7 @@ theorem tuple_step (D : Consts F) {js : List (JVal F)} {es' : List (DInfo F)}
   | nil => exact absurd rfl hne
   | cons t ts =>
     have := allOk_map_ok (t :: ts)
+    simp only [List.map_cons] at this
     simp [mkTuple, dictGet_cons, dictGet_nil, hitems, this]
 
 theorem struct_step (D : Consts F) {js : List (String × JVal F)} {ms' : List (String × DInfo F)}
@@ -374,16 +375,270 @@ theorem struct_step (D : Consts F) {js : List (String × JVal F)} {ms' : List (S
   | nil => exact absurd rfl hne
   | cons t ts =>
     have := allOkFields_map_ok (t :: ts)
+    simp only [List.map_cons] at this
     cases differs with
     | false =>
       have ho := hsame rfl
       simp [mkStruct, dictGet_cons, dictGet_nil, dictGet_optField, hfields, this, ho]
     | true =>
-      have hall : opt.all (fun k => (List.map (·.1) (t :: ts)).contains k) = true := by
+      have hall : opt.all (List.map (fun x => x.fst) (t :: ts)).contains = true := by
         rw [List.all_eq_true]
         intro k hk
         simpa using hopt k hk
       simp [mkStruct, dictGet_cons, dictGet_nil, dictGet_optField, hfields, this, strItems_map]
-      simpa using hopt
+      rw [if_pos hall]
+
+/-! ### the induction, relative to the two float leaves -/
+
+/-- a `double` leaf is rebuilt from its datainfo -/
+def DoubleLeafOK (D : Consts F) : Prop :=
+  ∀ (mn mx ar rr : F) (u f : String), (DInfo.double mn mx ar rr u f).WF D →
+    ∃ j, exportDatatype D (.double mn mx ar rr u f) = .ok j ∧ getDatatype D j = .ok (.double mn mx ar rr u f)
+
+/-- a grid-aligned `scaled` leaf is rebuilt from its datainfo -/
+def ScaledLeafOK (D : Consts F) : Prop :=
+  ∀ (s mn mx ar rr : F) (u f : String), (DInfo.scaled s mn mx ar rr u f).WF D →
+    (DInfo.scaled s mn mx ar rr u f).Exportable →
+    ∃ j, exportDatatype D (.scaled s mn mx ar rr u f) = .ok j ∧ getDatatype D j = .ok (.scaled s mn mx ar rr u f)
+
+theorem asClientList_ne_nil {es : List (DInfo F)} (h : es ≠ []) : asClientList es ≠ [] := by
+  cases es with
+  | nil => exact absurd rfl h
+  | cons t ts => simp [asClientList]
+
+theorem asClientFields_ne_nil {ms : List (String × DInfo F)} (h : ms ≠ []) : asClientFields ms ≠ [] := by
+  cases ms with
+  | nil => exact absurd rfl h
+  | cons t ts => obtain ⟨k, t⟩ := t; simp [asClientFields]
+
+mutual
+theorem rebuild_gen (D : Consts F) (hD : D.OK) (hC : ConstsOK2 F) (hdbl : DoubleLeafOK D) (hsc : ScaledLeafOK D) :
+    ∀ dt : DInfo F, dt.WF D → dt.Exportable → dt.OptionalInOrder →
+      ∃ j, exportDatatype D dt = .ok j ∧ getDatatype D j = .ok dt.asClient
+  | .double mn mx ar rr u f, hwf, _, _ => by simpa only [asClient] using hdbl mn mx ar rr u f hwf
+  | .int mn mx, hwf, _, _ => by simpa only [asClient] using leaf_int D hC hwf
+  | .scaled s mn mx ar rr u f, hwf, hex, _ => by simpa only [asClient] using hsc s mn mx ar rr u f hwf hex
+  | .bool, _, _, _ => by simpa only [asClient] using leaf_bool D
+  | .enum n ms, hwf, _, _ => by simpa only [asClient] using leaf_enum D hwf
+  | .string a b u, hwf, _, _ => by simpa only [asClient] using leaf_string D hD hC hwf
+  | .blob a b, hwf, _, _ => by simpa only [asClient] using leaf_blob D hD hC hwf
+  | .array e a b, hwf, hex, hoo => by
+    simp only [DInfo.WF] at hwf
+    simp only [Exportable] at hex
+    simp only [OptionalInOrder] at hoo
+    obtain ⟨j, hj1, hj2⟩ := rebuild_gen D hD hC hdbl hsc e hwf.1 hex hoo
+    refine ⟨_, by rw [exportDatatype, hj1], ?_⟩
+    simp only [asClient]
+    exact array_step D hC hj2 hwf.2.1 hwf.2.2
+  | .tuple es, hwf, hex, hoo => by
+    simp only [DInfo.WF] at hwf
+    simp only [Exportable] at hex
+    simp only [OptionalInOrder] at hoo
+    obtain ⟨js, hj1, hj2⟩ := rebuild_list D hD hC hdbl hsc es hwf.2 hex hoo
+    refine ⟨_, by rw [exportDatatype, hj1], ?_⟩
+    simp only [asClient]
+    exact tuple_step D hj2 (asClientList_ne_nil hwf.1)
+  | .struct ms opt c, hwf, hex, hoo => by
+    simp only [DInfo.WF] at hwf
+    simp only [Exportable] at hex
+    simp only [OptionalInOrder] at hoo
+    obtain ⟨js, hj1, hj2⟩ := rebuild_fields D hD hC hdbl hsc ms hwf.2.2.2 hex hoo.2
+    refine ⟨_, by rw [exportDatatype, hj1], ?_⟩
+    simp only [asClient]
+    exact struct_step D hj2 (asClientFields_ne_nil hwf.1)
+      (by rw [asClientFields_names]; exact hoo.1) (by rw [asClientFields_names]; exact hwf.2.2.1)
+theorem rebuild_list (D : Consts F) (hD : D.OK) (hC : ConstsOK2 F) (hdbl : DoubleLeafOK D) (hsc : ScaledLeafOK D) :
+    ∀ es : List (DInfo F), WFList D es → ExportableList es → OptionalInOrderList es →
+      ∃ js, exportList D es = .ok js ∧ (convList D js).map (·.self) = (asClientList es).map Except.ok
+  | [], _, _, _ => ⟨[], by rw [exportList], by simp only [convList, asClientList, List.map_nil]⟩
+  | t :: ts, hwf, hex, hoo => by
+    simp only [DInfo.WFList] at hwf
+    simp only [ExportableList] at hex
+    simp only [OptionalInOrderList] at hoo
+    obtain ⟨j, hj1, hj2⟩ := rebuild_gen D hD hC hdbl hsc t hwf.1 hex.1 hoo.1
+    obtain ⟨js, hjs1, hjs2⟩ := rebuild_list D hD hC hdbl hsc ts hwf.2 hex.2 hoo.2
+    refine ⟨j :: js, by rw [exportList, hj1, hjs1], ?_⟩
+    unfold getDatatype at hj2
+    simp only [convList, asClientList, List.map_cons, hj2, hjs2]
+theorem rebuild_fields (D : Consts F) (hD : D.OK) (hC : ConstsOK2 F) (hdbl : DoubleLeafOK D) (hsc : ScaledLeafOK D) :
+    ∀ ms : List (String × DInfo F), WFFields D ms → ExportableFields ms → OptionalInOrderFields ms →
+      ∃ js, exportFields D ms = .ok js ∧
+        (convFields D js).map (fun kc => (kc.1, kc.2.self)) = (asClientFields ms).map (fun kt => (kt.1, Except.ok kt.2))
+  | [], _, _, _ => ⟨[], by rw [exportFields], by simp only [convFields, asClientFields, List.map_nil]⟩
+  | (k, t) :: ts, hwf, hex, hoo => by
+    simp only [DInfo.WFFields] at hwf
+    simp only [ExportableFields] at hex
+    simp only [OptionalInOrderFields] at hoo
+    obtain ⟨j, hj1, hj2⟩ := rebuild_gen D hD hC hdbl hsc t hwf.1 hex.1 hoo.1
+    obtain ⟨js, hjs1, hjs2⟩ := rebuild_fields D hD hC hdbl hsc ts hwf.2 hex.2 hoo.2
+    refine ⟨(k, j) :: js, by rw [exportFields, hj1, hjs1], ?_⟩
+    unfold getDatatype at hj2
+    simp only [convFields, asClientFields, List.map_cons, hj2, hjs2]
+end
+
+theorem viaDatainfo_of (D : Consts F) {t t' : DInfo F}
+    (h : ∃ j, exportDatatype D t = .ok j ∧ getDatatype D j = .ok t') : viaDatainfo D t = .ok t' := by
+  obtain ⟨j, h1, h2⟩ := h
+  simp only [viaDatainfo, h1, h2]
+
+mutual
+theorem copy_gen (D : Consts F) (hD : D.OK) (hC : ConstsOK2 F) (hdbl : DoubleLeafOK D) (hsc : ScaledLeafOK D) :
+    ∀ dt : DInfo F, dt.WF D → dt.Exportable → copy D dt = .ok dt
+  | .double mn mx ar rr u f, hwf, _ => by rw [copy]; exact viaDatainfo_of D (hdbl mn mx ar rr u f hwf)
+  | .int mn mx, hwf, _ => by rw [copy]; exact viaDatainfo_of D (leaf_int D hC hwf)
+  | .scaled s mn mx ar rr u f, hwf, hex => by rw [copy]; exact viaDatainfo_of D (hsc s mn mx ar rr u f hwf hex)
+  | .bool, _, _ => by rw [copy]; exact viaDatainfo_of D (leaf_bool D)
+  | .enum n ms, _, _ => by rw [copy]
+  | .string a b u, hwf, _ => by rw [copy]; exact viaDatainfo_of D (leaf_string D hD hC hwf)
+  | .blob a b, hwf, _ => by rw [copy]; exact viaDatainfo_of D (leaf_blob D hD hC hwf)
+  | .array e a b, hwf, hex => by
+    simp only [DInfo.WF] at hwf
+    simp only [Exportable] at hex
+    rw [copy, copy_gen D hD hC hdbl hsc e hwf.1 hex]
+  | .tuple es, hwf, hex => by
+    simp only [DInfo.WF] at hwf
+    simp only [Exportable] at hex
+    rw [copy, copyList_gen D hD hC hdbl hsc es hwf.2 hex]
+  | .struct ms opt c, hwf, hex => by
+    simp only [DInfo.WF] at hwf
+    simp only [Exportable] at hex
+    rw [copy, copyFields_gen D hD hC hdbl hsc ms hwf.2.2.2 hex]
+theorem copyList_gen (D : Consts F) (hD : D.OK) (hC : ConstsOK2 F) (hdbl : DoubleLeafOK D) (hsc : ScaledLeafOK D) :
+    ∀ es : List (DInfo F), WFList D es → ExportableList es → copyList D es = .ok es
+  | [], _, _ => by rw [copyList]
+  | t :: ts, hwf, hex => by
+    simp only [DInfo.WFList] at hwf
+    simp only [ExportableList] at hex
+    rw [copyList, copy_gen D hD hC hdbl hsc t hwf.1 hex.1, copyList_gen D hD hC hdbl hsc ts hwf.2 hex.2]
+theorem copyFields_gen (D : Consts F) (hD : D.OK) (hC : ConstsOK2 F) (hdbl : DoubleLeafOK D) (hsc : ScaledLeafOK D) :
+    ∀ ms : List (String × DInfo F), WFFields D ms → ExportableFields ms → copyFields D ms = .ok ms
+  | [], _, _ => by rw [copyFields]
+  | (k, t) :: ts, hwf, hex => by
+    simp only [DInfo.WFFields] at hwf
+    simp only [ExportableFields] at hex
+    rw [copyFields, copy_gen D hD hC hdbl hsc t hwf.1 hex.1, copyFields_gen D hD hC hdbl hsc ts hwf.2 hex.2]
+end
+
+/-! ### float properties -/
+
+theorem zero_finite (D : Consts F) (hD : D.OK) : isFinite D.zero = true :=
+  LawfulFloatOps.ofInt_finite 0 D.zero hD.zero_eq
+
+theorem zero_nonneg (D : Consts F) (hD : D.OK) : DType.nonneg D.zero = true := by
+  unfold DType.nonneg
+  rw [hD.zero_eq]
+  exact LawfulFloatOps.le_refl _ (notNaN_of_finite (zero_finite D hD))
+
+theorem le_zero_of_nonneg (D : Consts F) (hD : D.OK) {x : F} (h : DType.nonneg x = true) : le D.zero x = true := by
+  unfold DType.nonneg at h
+  rw [hD.zero_eq] at h
+  exact h
+
+theorem max_finite : isFinite (maxFinite : F) = true :=
+  CompatLaws.bounds_finite _ LawfulFloatOps.neg_max_le_max (LawfulFloatOps.le_refl _ LawfulFloatOps.maxFinite_notNaN)
+
+theorem neg_max_finite : isFinite (neg (maxFinite : F)) = true :=
+  CompatLaws.bounds_finite _ (LawfulFloatOps.le_refl _ LawfulFloatOps.neg_maxFinite_notNaN) LawfulFloatOps.neg_max_le_max
+
+/-- a property value inside the limits of its `FloatRange` is returned unchanged -/
+theorem propDouble_of (D : Consts F) (hD : D.OK) {lo hi x : F} {v : PVal F} (hv : toFloat? v = some x)
+    (hx : isFinite x = true) (hlo : isFinite lo = true) (hhi : isFinite hi = true)
+    (h1 : le lo x = true) (h2 : le x hi = true) : propDouble D lo hi v = .ok x := by
+  have hb := CompatLaws.finite_bounds x hx
+  have hn := notNaN_of_finite hx
+  have ht := CompatLaws.tol_nonneg D.relRes D.zero x hD.relRes_finite hD.relRes_nonneg (zero_finite D hD)
+    (zero_nonneg D hD) hx
+  have hc : doubleCall v = .ok x := by
+    simp [doubleCall, hv, hn, median3_inside hb.1 hb.2]
+  have l1 : le (sub lo (tolerance D.relRes D.zero x)) x = true :=
+    LawfulFloatOps.le_trans _ _ _ (CompatLaws.sub_nonneg_le lo _ hlo ht.1 ht.2) h1
+  have l2 : le x (add hi (tolerance D.relRes D.zero x)) = true :=
+    LawfulFloatOps.le_trans _ _ _ h2 (CompatLaws.le_add_nonneg hi _ hhi ht.1 ht.2)
+  simp [propDouble, doubleValidate, hc, l1, l2, median3_inside h1 h2]
+
+theorem propDouble_self (D : Consts F) (hD : D.OK) {lo hi x : F} (hc : addZero x = x)
+    (hx : isFinite x = true) (hlo : isFinite lo = true) (hhi : isFinite hi = true)
+    (h1 : le lo x = true) (h2 : le x hi = true) : propDouble D lo hi (.float x) = .ok x :=
+  propDouble_of D hD (by simp only [toFloat?, hc]) hx hlo hhi h1 h2
+
+theorem propStr_self {utf8 : Bool} {s : String} (h : DInfo.strOK utf8 s) : propStr (F := F) utf8 (.str s) = .ok s := by
+  obtain ⟨h1, h2, h3⟩ := h
+  have hlen : ¬ s.length > intLimit.toNat := by unfold intLimit at h3 ⊢; omega
+  cases utf8 with
+  | false => simp [propStr, stringCall, h1 rfl, h2, hlen]
+  | true => simp [propStr, stringCall, h2, hlen]
+
+theorem kwStr_step {utf8 : Bool} {s d : String} (h : DInfo.strOK utf8 s) :
+    kwProp (F := F) (if s = d then none else some (.str s)) d (propStr utf8) = .ok s := by
+  by_cases hs : s = d
+  · simp [kwProp, hs]
+  · simp [kwProp, hs, propStr_self h]
+
+/-- a resolution given only when it differs from its default -/
+theorem kwRes_step (D : Consts F) (hD : D.OK) {x d : F} (hd : addZero d = d) (hc : addZero x = x)
+    (hx : isFinite x = true) (hn : DType.nonneg x = true) :
+    kwProp (if feq x d then none else some (.float x)) d (propDouble D D.zero maxFinite) = .ok x := by
+  cases hf : feq x d with
+  | true =>
+    have := CompatLaws.feq_canon x d hf hc hd
+    simp [kwProp, this]
+  | false =>
+    simp only [Bool.false_eq_true, if_false, kwProp]
+    exact propDouble_self D hD hc hx (zero_finite D hD) max_finite (le_zero_of_nonneg D hD hn)
+      (CompatLaws.finite_bounds x hx).2
+
+/-- a limit given only when it differs from its default `d = ±max` -/
+theorem limit_step (D : Consts F) (hD : D.OK) {x d : F} (hd : addZero d = d) (hdf : isFinite d = true)
+    (hc : addZero x = x) (hx : isFinite x = true) :
+    propDouble D (neg maxFinite) maxFinite (orDefault (if feq x d then none else some (.float x)) (.float d)) = .ok x := by
+  cases hf : feq x d with
+  | true =>
+    have := CompatLaws.feq_canon x d hf hc hd
+    simp only [if_true, orDefault, this]
+    exact propDouble_self D hD hd hdf neg_max_finite max_finite (CompatLaws.finite_bounds d hdf).1
+      (CompatLaws.finite_bounds d hdf).2
+  | false =>
+    simp only [Bool.false_eq_true, if_false, orDefault]
+    exact propDouble_self D hD hc hx neg_max_finite max_finite (CompatLaws.finite_bounds x hx).1
+      (CompatLaws.finite_bounds x hx).2
+
+theorem mkDouble_of_args (D : Consts F) (hD : D.OK) (hC : ConstsOK2 F) {fields : List (String × JVal F)}
+    {mn mx ar rr : F} {u f : String} (hwf : (DInfo.double mn mx ar rr u f).WF D)
+    (h1 : arg fields "min" = if feq mn (neg maxFinite) then none else some (.float mn))
+    (h2 : arg fields "max" = if feq mx maxFinite then none else some (.float mx))
+    (h3 : arg fields "unit" = if u = "" then none else some (.str u))
+    (h4 : arg fields "fmtstr" = if f = "%g" then none else some (.str f))
+    (h5 : arg fields "absolute_resolution" = if feq ar D.zero then none else some (.float ar))
+    (h6 : arg fields "relative_resolution" = if feq rr D.relRes then none else some (.float rr)) :
+    mkDouble D fields = .ok (.double mn mx ar rr u f) := by
+  simp only [DInfo.WF, DType.WF] at hwf
+  obtain ⟨⟨fmn, fmx, hle, _, _, cmn, cmx, far, nar, frr, nrr⟩, car, crr, su, sf, hfmt⟩ := hwf
+  have s1 := limit_step D hD hC.neg_max_canon neg_max_finite cmn fmn
+  have s2 := limit_step D hD hC.max_canon max_finite cmx fmx
+  have s3 := kwStr_step (F := F) (d := "") su
+  have s4 := kwStr_step (F := F) (d := "%g") sf
+  have s5 := kwRes_step D hD hD.zero_canon car far nar
+  have s6 := kwRes_step D hD hD.relRes_canon crr frr nrr
+  simp [mkDouble, h1, h2, h3, h4, h5, h6, s1, s2, s3, s4, s5, s6, ok_bind, hle, hfmt]
+
+theorem leaf_double (D : Consts F) (hD : D.OK) (hC : ConstsOK2 F) : DoubleLeafOK D := by
+  intro mn mx ar rr u f hwf
+  refine ⟨_, by rw [exportDatatype], ?_⟩
+  rw [getDatatype_obj D _ "double" (by simp [dictGet_append, dictGet_optField, dictGet_cons])]
+  have hmk := mkDouble_of_args D hD hC (fields :=
+      optField (u != "") "unit" (.str u) ++
+      optField (!feq mn (neg maxFinite)) "min" (.num mn) ++
+      optField (!feq mx maxFinite) "max" (.num mx) ++
+      optField (f != "%g") "fmtstr" (.str f) ++
+      optField (!feq ar D.zero) "absolute_resolution" (.num ar) ++
+      optField (!feq rr D.relRes) "relative_resolution" (.num rr) ++
+      [("type", .str "double")]) hwf
+    (by cases feq mn (neg maxFinite) <;> simp [arg, ofJVal, dictGet_append, dictGet_optField, dictGet_cons, dictGet_nil])
+    (by cases feq mx maxFinite <;> simp [arg, ofJVal, dictGet_append, dictGet_optField, dictGet_cons, dictGet_nil])
+    (by by_cases h : u = "" <;> simp [arg, ofJVal, dictGet_append, dictGet_optField, dictGet_cons, dictGet_nil, h])
+    (by by_cases h : f = "%g" <;> simp [arg, ofJVal, dictGet_append, dictGet_optField, dictGet_cons, dictGet_nil, h])
+    (by cases feq ar D.zero <;> simp [arg, ofJVal, dictGet_append, dictGet_optField, dictGet_cons, dictGet_nil])
+    (by cases feq rr D.relRes <;> simp [arg, ofJVal, dictGet_append, dictGet_optField, dictGet_cons, dictGet_nil])
+  simp [buildNode, dictGet_append, dictGet_optField, dictGet_cons, dictGet_nil, hmk]
 
 end Frappy.Lemmas.C03Datainfo
